@@ -45,7 +45,7 @@ def run(pid, tier, seed, replay):
     ctx = Ctx(pid, tier, seed)
     ctx.trusted.append("modelled, not verified: one replica (a) is the real server, the other two are played by the driver following the model's rules (their leader-epoch-offset answers and replication responses are built from real commit logs); every step is atomic and a follower reconciles against the current leader; the HW-truncation fallback taken when the leader cannot be reached, a leader that restarts as leader without reconciling, Raft, NATS and timing (lag-based ISR changes, failure detection) are outside the model")
     ctx.coq_cone("Properties/C02.v")
-    env = {"VERIF_N": 8 if tier == "quick" else 150}
+    env = {"VERIF_N": 14 if tier == "quick" else 150}
     lines = ctx.go_driver("server", ["server/srv_test.go", "server/partdrv_test.go", "server/c02_test.go"], "^TestVerifC02$", env=env, timeout=6000)
     cases = [l for l in lines if l.get("k") == "repl"]
     dist = {}
